@@ -1,6 +1,6 @@
 """C09 - exception safety: basic guarantee everywhere, strong where documented."""
 from .. import matrix
-from ..rules import lifetime, callgraph
+from ..rules import lifetime, callgraph, ownership
 
 
 def run(tier, runner):
@@ -16,14 +16,19 @@ def run(tier, runner):
     r_strong = lifetime.strong([p for p in progs if 'flavour' in p.meta and p.meta['elem'] != 'NTRtm'])
     r_tail = lifetime.tail([p for p in progs if 'flavour' in p.meta] + real)
     r_tr = callgraph.throw_reach(progs + real)
+    tm = matrix.programs(runner, [p for p in matrix.memalg_points('thorough', stds=[17]) if p.elem in ('NTRtm', 'NTR')])
+    r_blk = ownership.block(progs + tm + real)
+    r_rt = lifetime.rethrow(progs + tm + real)
+    r_rt.require(10, 'catch handlers in amc')
     ob['HOLE'].require(4, 'functions that open slots with shift_right')
     ob['TEMP'].require(2, 'functions that build an element in a local ElemStorage')
     ob['RAWTAIL'].require(30, 'functions that construct into raw storage')
     r_strong.require(15, 'operations documented as strong')
     r_tail.require(12, 'size commits of the vector operations')
+    r_blk.require(3, 'functions that hold a fresh block in a local variable (Reallocate, SmallVectorBase::grow, amc::allocator reallocate)')
     r_tr.require(60, 'amc functions whose exception specification evaluates to noexcept(true)')
     return {
-        'results': [ob['HOLE'], ob['TEMP'], ob['RAWTAIL'], r_strong, r_tail, r_tr],
+        'results': [ob['HOLE'], ob['TEMP'], ob['RAWTAIL'], r_strong, r_tail, r_tr, r_blk, r_rt],
         'explanation': 'Typestate analysis on the structured body of every function of the vector layer and of memory.hpp, per instantiation. '
                        'The may-throw points are exactly the calls from whose resolved callee a throw source (throw expression, allocator request, '
                        'element operation not declared noexcept) is reachable without crossing a noexcept(true) function - the same set the k-th '
@@ -33,7 +38,8 @@ def run(tier, runner):
                        'outside a handler that destroys the new objects; TAIL: every size commit follows the lifetime operation it accounts for; '
                        'STRONG: in the operations documented as strong nothing observable is modified before the last may-throw call (roll-back '
                        'handlers excepted); THROW-REACH: no noexcept(true) amc function reaches a throw source (an exception the property expects '
-                       'to propagate would become std::terminate).',
+                       'to propagate would become std::terminate); BLOCK: a block obtained from the allocator into a local variable is owned (member store, '
+                       'setDyn, return) or given back on every exit, exceptional successors of may-throw calls included (no memory block is leaked); RETHROW: every catch handler of amc leaves by re-throwing on every path.',
         'assumptions': ['STRONG is evaluated for element types whose moves are noexcept (the documented precondition); the basic-guarantee rules also '
                         'run on NTRtm (throwing moves), where six known findings remain (F20)',
                         'destructors do not throw; a second exception thrown by a roll-back handler is outside the single-fault quantifier', 'the basic guarantee of std::sort/inplace_merge/unique inside FlatSet bulk paths is trusted to libstdc++',
